@@ -175,6 +175,23 @@ pub fn run(seed: u64, n: usize, tier: &str) {
         }
     }
 
+    // roundtrip grid: every version x codec x hash code x digest length around the special CIDv0 form
+    // (dag-pb, sha2-256, 32 bytes), which only a CIDv0 may use
+    for codec in [0x55u64, 0x70, 0x71, 0, 0x80] {
+        for code in [0x12u64, 0x13, 0x11, 0x1b, 0] {
+            for len in [0usize, 20, 31, 32, 33, 64] {
+                let d: Vec<u8> = (0..len).map(|i| (i as u8).wrapping_mul(7).wrapping_add(code as u8)).collect();
+                let cid = CidGeneric::<64>::new_v1(codec, multihash::Multihash::<64>::wrap(code, &d).unwrap());
+                roundtrip_case(&cid).print();
+            }
+        }
+    }
+    {
+        let d: Vec<u8> = (0..32u8).collect();
+        let cid = CidGeneric::<64>::new_v0(multihash::Multihash::<64>::wrap(0x12, &d).unwrap()).unwrap();
+        roundtrip_case(&cid).print();
+    }
+
     for _ in 0..n {
         match rng.below(10) {
             0..=2 => {
